@@ -1,2 +1,190 @@
--- stub: replaced by the C03 driver
-def main : IO Unit := pure ()
+/-
+  Driver.C03 — runs the C03 CodeModel (layout IR semantics over the regenerated and the
+  hand-written pack layouts) on request lines.
+
+    E <Type> <record>      →  <hex of T.w written for the record>
+    D <Type> <hex>         →  ok <record read by T.r> <bytes left>   |  fail
+    H <hex>                →  header decode: ok Pcode=…;… <bytes left> | fail
+    T                      →  the known type names, comma separated
+
+  record syntax:  path=val;path=val;…   ("-" for the empty record)
+  val syntax:     i:<int>  b:<hex|->  is:<ints|->  ss:<hex|_,…|->  v:<value tokens, comma separated>
+  value tokens (prefix notation): null | bool,b | dec,n | int,n | long,n | f32,bits | f64,bits |
+    dsum,sumbits,count,minbits,maxbits | lsum,s,c,mn,mx | text,hex | hash,n | blob,hex | ip4,hex |
+    list,n,… | ai,n,… | af,n,… | at,n,… | al,n,… | map,n,(hexkey,value)… | imap,n,(key,value)…
+-/
+import Golib.Layout.IR
+import Golib.Packs.Hand
+import Golib.Gen.PackLayouts
+import Driver.Common
+import Std.Data.HashMap
+
+open Layout Drv
+
+namespace DrvC03
+
+/-! ### values -/
+
+def hexTok (bs : Bytes) : String := hexOf bs
+def unhexTok (s : String) : Option Bytes := if s == "_" then some [] else ofHex s
+
+partial def showValue : Value → List String
+  | .null => ["null"]
+  | .bool b => ["bool", if b then "1" else "0"]
+  | .dec v => ["dec", toString v]
+  | .int v => ["int", toString v]
+  | .long v => ["long", toString v]
+  | .f32 b => ["f32", toString b]
+  | .f64 b => ["f64", toString b]
+  | .dsum s c mn mx => ["dsum", toString s, toString c, toString mn, toString mx]
+  | .lsum s c mn mx => ["lsum", toString s, toString c, toString mn, toString mx]
+  | .text bs => ["text", hexTok bs]
+  | .hash v => ["hash", toString v]
+  | .blob bs => ["blob", hexTok bs]
+  | .ip4 bs => ["ip4", hexTok bs]
+  | .list xs => ["list", toString xs.length] ++ (xs.map showValue).flatten
+  | .ai xs => ["ai", toString xs.length] ++ xs.map toString
+  | .af xs => ["af", toString xs.length] ++ xs.map toString
+  | .at xs => ["at", toString xs.length] ++ xs.map hexTok
+  | .al xs => ["al", toString xs.length] ++ xs.map toString
+  | .map kvs => ["map", toString kvs.length] ++ (kvs.map (fun (k, v) => hexTok k :: showValue v)).flatten
+  | .imap kvs => ["imap", toString kvs.length] ++ (kvs.map (fun (k, v) => toString k :: showValue v)).flatten
+
+def takeN (f : List String → Option (α × List String)) : Nat → List String → Option (List α × List String)
+  | 0, ts => some ([], ts)
+  | n+1, ts => do
+    let (a, ts) ← f ts
+    let (as, ts) ← takeN f n ts
+    pure (a :: as, ts)
+
+def tokInt : List String → Option (Int × List String)
+  | t :: ts => t.toInt?.map (·, ts)
+  | [] => none
+def tokNat : List String → Option (Nat × List String)
+  | t :: ts => t.toNat?.map (·, ts)
+  | [] => none
+def tokHex : List String → Option (Bytes × List String)
+  | t :: ts => (unhexTok t).map (·, ts)
+  | [] => none
+
+partial def parseValue : List String → Option (Value × List String)
+  | [] => none
+  | t :: ts =>
+    match t with
+    | "null" => some (.null, ts)
+    | "bool" => do let (v, ts) ← tokInt ts; pure (.bool (v == 1), ts)
+    | "dec" => do let (v, ts) ← tokInt ts; pure (.dec v, ts)
+    | "int" => do let (v, ts) ← tokInt ts; pure (.int v, ts)
+    | "long" => do let (v, ts) ← tokInt ts; pure (.long v, ts)
+    | "f32" => do let (v, ts) ← tokNat ts; pure (.f32 v, ts)
+    | "f64" => do let (v, ts) ← tokNat ts; pure (.f64 v, ts)
+    | "dsum" => do
+      let (s, ts) ← tokNat ts; let (c, ts) ← tokInt ts; let (mn, ts) ← tokNat ts; let (mx, ts) ← tokNat ts
+      pure (.dsum s c mn mx, ts)
+    | "lsum" => do
+      let (s, ts) ← tokInt ts; let (c, ts) ← tokInt ts; let (mn, ts) ← tokInt ts; let (mx, ts) ← tokInt ts
+      pure (.lsum s c mn mx, ts)
+    | "text" => do let (v, ts) ← tokHex ts; pure (.text v, ts)
+    | "hash" => do let (v, ts) ← tokInt ts; pure (.hash v, ts)
+    | "blob" => do let (v, ts) ← tokHex ts; pure (.blob v, ts)
+    | "ip4" => do let (v, ts) ← tokHex ts; pure (.ip4 v, ts)
+    | "list" => do let (n, ts) ← tokNat ts; let (xs, ts) ← takeN parseValue n ts; pure (.list xs, ts)
+    | "ai" => do let (n, ts) ← tokNat ts; let (xs, ts) ← takeN tokInt n ts; pure (.ai xs, ts)
+    | "af" => do let (n, ts) ← tokNat ts; let (xs, ts) ← takeN tokNat n ts; pure (.af xs, ts)
+    | "at" => do let (n, ts) ← tokNat ts; let (xs, ts) ← takeN tokHex n ts; pure (.at xs, ts)
+    | "al" => do let (n, ts) ← tokNat ts; let (xs, ts) ← takeN tokInt n ts; pure (.al xs, ts)
+    | "map" => do
+      let (n, ts) ← tokNat ts
+      let (kvs, ts) ← takeN (fun ts => do let (k, ts) ← tokHex ts; let (v, ts) ← parseValue ts; pure ((k, v), ts)) n ts
+      pure (.map kvs, ts)
+    | "imap" => do
+      let (n, ts) ← tokNat ts
+      let (kvs, ts) ← takeN (fun ts => do let (k, ts) ← tokInt ts; let (v, ts) ← parseValue ts; pure ((k, v), ts)) n ts
+      pure (.imap kvs, ts)
+    | _ => none
+
+/-! ### record fields -/
+
+def showVal : Val → String
+  | .int v => s!"i:{v}"
+  | .bytes bs => s!"b:{hexOf bs}"
+  | .ints xs => s!"is:{listOf toString xs}"
+  | .strs xs => "ss:" ++ (if xs.isEmpty then "-" else ",".intercalate (xs.map (fun b => if b.isEmpty then "_" else hexOf b)))
+  | .value v => "v:" ++ ",".intercalate (showValue v)
+
+def dropS (s : String) (n : Nat) : String := String.ofList (s.toList.drop n)
+
+def parseVal (s : String) : Option Val :=
+  if s.startsWith "i:" then (dropS s 2).toInt?.map .int
+  else if s.startsWith "b:" then (ofHex (dropS s 2)).map .bytes
+  else if s.startsWith "is:" then (parseList parseInt (dropS s 3)).map .ints
+  else if s.startsWith "ss:" then (parseList unhexTok (dropS s 3)).map .strs
+  else if s.startsWith "v:" then
+    match parseValue ((dropS s 2).splitOn ",") with
+    | some (v, []) => some (.value v)
+    | _ => none
+  else none
+
+def parseRecord (s : String) : Option (Std.HashMap String Val) :=
+  if s == "-" then some {} else
+  (s.splitOn ";").foldlM (fun m kv =>
+    match kv.splitOn "=" with
+    | [k, v] => (parseVal v).map (fun v => m.insert k v)
+    | _ => none) {}
+
+def showOut (o : Out) : String :=
+  if o.isEmpty then "-" else ";".intercalate (o.map (fun (k, v) => k ++ "=" ++ showVal v))
+
+/-! ### the layouts by type name -/
+
+def hand : List (String × L × L) := [
+  ("TagCountPack", Packs.Hand.TagCountPack.w, Gen.Packs.TagCountPack.r),
+  ("TagLogPack", Packs.Hand.TagLogPack.w, Gen.Packs.TagLogPack.r),
+  ("LogSinkPack", Packs.Hand.LogSinkPack.w, Gen.Packs.LogSinkPack.r),
+  ("ParamPack", Packs.Hand.ParamPack.l, Packs.Hand.ParamPack.l),
+  ("ExtensionPack", Packs.Hand.ExtensionPack.w, Packs.Hand.ExtensionPack.r),
+  ("EventPack", Packs.Hand.EventPack.l, Packs.Hand.EventPack.l)
+]
+
+def isUnknown : L → Bool
+  | .unknown _ => true
+  | _ => false
+
+def table : Std.HashMap String (L × L) :=
+  let m : Std.HashMap String (L × L) :=
+    Gen.Packs.all.foldl (fun m (n, w, r) => if isUnknown w && isUnknown r then m else m.insert n (w, r)) {}
+  hand.foldl (fun m (n, w, r) => m.insert n (w, r)) m
+
+def recOf (m : Std.HashMap String Val) : Rec := fun k => (m.get? k).getD (.int 0)
+
+/-- writer parameters travel in the record as `$name` -/
+def envOf (m : Std.HashMap String Val) : Env := fun k => ((m.get? ("$" ++ k)).getD (.int 0)).toInt
+
+def answer (line : String) : String :=
+  match line.splitOn " " with
+  | ["E", ty, rec] =>
+    match table.get? ty, parseRecord rec with
+    | some (w, _), some m => hexOf (w.write (envOf m) "" (recOf m))
+    | none, _ => "no-layout"
+    | _, none => "bad-record"
+  | ["D", ty, hex] =>
+    match table.get? ty, ofHex hex with
+    | some (_, r), some bs =>
+      match r.read "" (fun _ => 0) bs with
+      | some (o, _, rest) => s!"ok {showOut o} {rest.length}"
+      | none => "fail"
+    | none, _ => "no-layout"
+    | _, none => "bad-hex"
+  | ["H", hex] =>
+    match ofHex hex with
+    | some bs =>
+      match P.run decHeader bs with
+      | some (h, rest) => s!"ok {showOut (hdrOut "" h)} {rest.length}"
+      | none => "fail"
+    | none => "bad-hex"
+  | ["T"] => ",".intercalate (table.toList.map (·.1))
+  | _ => "bad-op"
+
+end DrvC03
+
+def main : IO Unit := Drv.statelessLoop DrvC03.answer
